@@ -7,4 +7,4 @@ if [ -n "$(git status --porcelain)" ]; then echo "/repo not clean"; exit 2; fi
 git apply "$patch" || { echo "patch does not apply"; exit 2; }
 trap 'git -C /repo checkout -- . ; git -C /repo clean -fdq' EXIT
 (env -u GOFLAGS -u GOTOOLCHAIN -u GOSUMDB go test -count=1 ./... >/dev/null 2>&1 && echo "repo tests: pass") || echo "repo tests: FAIL"
-cd /verif && VERIF_REPLAYS=${VERIF_REPLAYS:-/tmp/verif-mutant-replays} VERIF_BUDGET=$budget ./bin/verif check "$prop" 2>&1 | grep -E "VIOLATION|signature|detail|KNOWN|INFRA|^verif: property.*exit" | cut -c1-400
+cd /verif && VERIF_EVIDENCE_DIR=/tmp/verif-mutant-evidence VERIF_REPLAYS=${VERIF_REPLAYS:-/tmp/verif-mutant-replays} VERIF_BUDGET=$budget ./bin/verif check "$prop" 2>&1 | grep -E "VIOLATION|signature|detail|KNOWN|INFRA|^verif: property.*exit" | cut -c1-400
